@@ -286,7 +286,10 @@ def r16d(ck, prog, functions=None, rule="R16d", all_exits=True):
                 if "input" not in cause:
                     barriers.append(g)
             bpos = [x for x in (cfg.position(b) for b in barriers) if x is not None]
-            exits = F.returns() if (all_exits and (functions is not None or fname in FAILURE_OWNERS)) else F.success_returns()
+            owns_on_failure = all_exits and (functions is not None or fname in FAILURE_OWNERS)
+            exits = F.returns() if owns_on_failure else F.success_returns()
+            if not owns_on_failure:
+                bpos = bpos + F.error_jumps()          # success paths only: a path that takes a failure jump is not one
             for a in acq:
                 n += 1
                 apos = cfg.position(a)
